@@ -439,10 +439,14 @@ func TestC13E2E(t *testing.T) { e2ePipeTest(t, "C13") }
 
 // ---------------------------------------------------------------- C01: malformed datagrams against the running process
 
-const c01E2ERule = " | end-to-end stage: generated malformed histories of all four protocols are sent to the real binary's UDP ports; the process must keep answering its stats API and exit 0 on SIGTERM"
+const c01E2ERule = " | end-to-end stage: generated malformed histories of all four protocols are sent to the real binary's UDP ports; in three of four cases with IPFIX / sFlow mirroring to an IPv4 or IPv6 address switched on, exporters on 127.0.0.x and ::1; the process must keep answering its stats API and exit 0 on SIGTERM"
 
 type c01E2ECase struct {
 	Histories []rbCase `json:"histories"`
+	// Mirror: "" | "v4" | "v6" — IPFIX and sFlow datagrams are additionally mirrored to 127.0.0.99 / ::1 (a valid
+	// configuration; whatever arrives must not terminate the process through the mirror path either)
+	Mirror  string            `json:"mirror,omitempty"`
+	Ambient map[string]string `json:"ambient,omitempty"`
 }
 
 func runC01E2E(c *c01E2ECase) (v verdict, sig string, err error) {
@@ -460,7 +464,21 @@ func runC01E2E(c *c01E2ECase) (v verdict, sig string, err error) {
 	if e != nil {
 		return v, "", e
 	}
-	proc, e := startVflow(dir, ports, e2eConfig{Workers: 3, SinkAddr: sink.addr()}, false)
+	extra := map[string]string{}
+	for k, val := range c.Ambient {
+		extra[k] = val
+	}
+	if c.Mirror != "" {
+		dst := map[string]string{"v4": "127.0.0.99", "v6": "::1"}[c.Mirror]
+		if dst == "" {
+			return v, "", fmt.Errorf("bad case: mirror")
+		}
+		extra["ipfix-mirror-addr"], extra["sflow-mirror-addr"] = fmt.Sprintf("%q", dst), fmt.Sprintf("%q", dst)
+		extra["ipfix-mirror-port"], extra["sflow-mirror-port"] = "9", "9"
+		extra["ipfix-mirror-workers"], extra["sflow-mirror-workers"] = "2", "2"
+		v.label(true, "mirroring-"+c.Mirror)
+	}
+	proc, e := startVflow(dir, ports, e2eConfig{Workers: 3, SinkAddr: sink.addr(), Extra: extra}, false)
 	if e != nil {
 		return v, "", fmt.Errorf("harness: %v", e)
 	}
@@ -482,6 +500,9 @@ func runC01E2E(c *c01E2ECase) (v verdict, sig string, err error) {
 				continue // restarts of the real process are C15's subject
 			}
 			k := 2 + (hi*3+it.Exp)%200
+			if (hi+it.Exp)%4 == 0 {
+				k = 0 // an IPv6 exporter (::1)
+			}
 			ex := exps[k]
 			if ex == nil {
 				if ex, e = openExporter(k); e != nil {
@@ -549,7 +570,7 @@ func TestC01E2E(t *testing.T) {
 	for i := 0; i < n; i++ {
 		c := gen.Example(seed*1000 + 700 + i)
 		v, sig, err := runC01E2E(&c)
-		cj := mustJSON(map[string]interface{}{"e2e": true, "histories": len(c.Histories), "seed": seed*1000 + 700 + i})
+		cj := mustJSON(map[string]interface{}{"e2e": true, "histories": len(c.Histories), "seed": seed*1000 + 700 + i, "mirror": c.Mirror, "ambient": c.Ambient})
 		if err != nil {
 			cj = mustJSON(c)
 		}
